@@ -124,10 +124,11 @@ def model_query(items):
     return res
 
 
-def alg_query(items):
-    """items: (formula, sig) -> the sample list of the mirror of the dense offline list algorithms (Rtamt/Dense/Alg.lean):
+def alg_query(items, cmd="densealg"):
+    """items: (formula, sig) -> the sample list of the mirror of the dense offline list algorithms (Rtamt/Dense/Alg.lean), or
+    with cmd="densealggen" of the visitor translated from the source (GeneratedDense.lean) run under the semantics of Dn.lean:
     ("ok", [(Fraction | inf, float)]) | ("err", kind) | ("undef",)."""
-    lines = ["densealg | %d/%d | %s | %s" % (SCALE.numerator, SCALE.denominator, F.to_proto(f), proto_sigs(sig)) for f, sig in items]
+    lines = ["%s | %d/%d | %s | %s" % (cmd, SCALE.numerator, SCALE.denominator, F.to_proto(f), proto_sigs(sig)) for f, sig in items]
     res = []
     for o, ln in zip(common.driver_run(lines), lines):
         if o.startswith("undef"):
@@ -436,6 +437,18 @@ def compare_offline_batch(ctx, cases):
                                        % (m[1] if m[0] == "ok" else m, out[1], text),
                                        dict(rep, mirror=[[str(t), v] for t, v in m[1]] if m[0] == "ok" else list(m)),
                                        failing_input=False, stream="off-c/mirror"))
+    # the visitor as translated from the source on this run (GeneratedDense.lean), run by the model under Dn.lean
+    for k, m in zip(todo, alg_query([(work[k][0]["f"], work[k][0]["sig"]) for k in todo], cmd="densealggen")):
+        c, text, out, rep = work[k]
+        ctx.count("alg-translated:" + m[0])
+        if m[0] == "undef" or any(p[1] != p[1] for p in out[1]):
+            continue
+        if m[0] != "ok" or not same_samples(out[1], m[1]):
+            ctx.diffs.append(Violation("the dense offline visitor translated from the source (GeneratedDense.lean under the Lean semantics "
+                                       "of the Python subset) gives %r, evaluate() returned %r: %s"
+                                       % (m[1] if m[0] == "ok" else m, out[1], text),
+                                       dict(rep, translated=[[str(t), v] for t, v in m[1]] if m[0] == "ok" else list(m)),
+                                       failing_input=False, stream="off-c/translated"))
     for k, (c, _, _, _) in enumerate(work):
         yield c, results.get(k)
 
@@ -458,6 +471,17 @@ def compare_mirror_only(ctx, cases):
             ctx.diffs.append(Violation("the mirror of the dense offline list algorithms (Dense/Alg.lean) gives %r, evaluate() %r: %s"
                                        % (m[1] if m[0] == "ok" else m, out[1:] if out[0] != "ok" else out[1], text), rep,
                                        failing_input=False, stream="off-c/mirror"))
+    for (c, text, out), m in zip(work, alg_query([(c["f"], c["sig"]) for c, _, _ in work], cmd="densealggen")):
+        ctx.count("alg-translated-known-region:" + m[0])
+        if m[0] == "undef" or (out[0] == "ok" and any(p[1] != p[1] for p in out[1])):
+            continue
+        same = (out[0] == "ok" and m[0] == "ok" and same_samples(out[1], m[1])) or (out[0] != "ok" and m[0] == "err")
+        if not same:
+            ctx.diffs.append(Violation("the dense offline visitor translated from the source gives %r, evaluate() %r: %s"
+                                       % (m[1] if m[0] == "ok" else m, out[1:] if out[0] != "ok" else out[1], text),
+                                       {"monitor": "offc", "spec": text, "formula": F.to_proto(c["f"]), "signals": sig_rep(c["sig"]),
+                                        "impl": out, "translated": [[str(t), v] for t, v in m[1]] if m[0] == "ok" else list(m)},
+                                       failing_input=False, stream="off-c/translated"))
 
 
 # ======================================================================================
